@@ -107,7 +107,7 @@ def strategy():
     op = st.tuples(st.integers(0, 13), st.integers(0, 16 ** 4 - 1)).map(decode_op)
     return st.fixed_dictionaries({
         'mode': st.integers(0, 1),
-        'handlers': st.lists(st.integers(1, 7), min_size=2, max_size=6),
+        'handlers': st.lists(st.integers(0, 7), min_size=2, max_size=6),     # 0: a handler listening to nothing
         'ops': worldops.chunked(op, 36)})
 
 
@@ -259,6 +259,8 @@ class Run:
         if self.mode == 0:
             self.d.remove_handler(self.strong[i])
             self.registered[i] = False
+            if self.d.is_handler(self.strong[i]):
+                self.viol('removed_handler_still_registered', handler=i, events=sorted(self.classes[i].evs))
         else:
             self.kill(i, 1)
 
